@@ -416,6 +416,12 @@ func (c *compiler) compile(tok *token) []instruction {
 				key = c.expPrefix(key)
 				idx = lookup.Index(key)
 			}
+			if len(target.Tokens) > 0 { // const c uint8 = 200: a typed constant has that type
+				typ := typeFromToken(c, target.Tokens[0])
+				if slices.Contains([]Type{TypeUint8, TypeInt8, TypeUint32, TypeInt32, TypeFloat64}, typ) {
+					res = append(res, instruction{Code: codeCast, A: reg(typ)})
+				}
+			}
 			res = append(res, instruction{Code: code, A: reg(idx)})
 		}
 	case ":=", "var":
